@@ -29,7 +29,7 @@ THRESHOLDS = {"A": 1e-9, "B_snapped": 1e-9, "B_unsnapped": 1e-6, "C": 1e-9}
 
 
 def cases(tier, seed):
-    reps = 14 if tier == "quick" else 400
+    reps = 14 if tier == "quick" else 1200
     out = []
     for nt in zoo.NOISE_TYPES:
         for r in range(reps):
